@@ -344,10 +344,11 @@ def deinterleave (eng : Fmt) (t : DType) (mem : List Nat) (n ch : Nat) : List (L
 def interleaveFloat (eng out : Fmt) (b : Nat) : Nat :=
   if eng = out then b % 2 ^ eng.bits else Fmt.cvt eng out b
 
-/-- `RINT_MAX` per integer output type (read from the code: `Generated.lean`). -/
+/-- `RINT_MAX` per integer output type (`2147483647L` / `32767`).  `Properties/C11.lean` checks on every run that the values
+    observed on the real kernels (`Gen.limits`, `Gen.rintMax16`, `Gen.rintMax32`) are these. -/
 def rintMax : DType → Int
-  | .i32 => Gen.rintMax32
-  | _ => Gen.rintMax16
+  | .i32 => 2147483647
+  | _ => 32767
 
 /-- result of `_soxr_interleave(_f)`: the output patterns in memory order, clip count, seed, flag. -/
 structure IlResult where
